@@ -78,11 +78,16 @@ PairsOf(k, fl) ==
         : P \in {{a, b} : a \in O, b \in O} \ {{a} : a \in O}}
 Pairs == UNION {PairsOf(kf[1], kf[2]) : kf \in {x \in KindFlavours : x[1] \in PairKinds}}
 
-ExtNames == {"x-ext", "x-", "X-Upper"}
+\* extension names in lower and upper case (both are extensions: the prefix test folds case);
+\* unknown schema keywords, among them names starting with "$" (draft-06 style)
+ExtNames == {"x-ext", "x-"}
+UnknownNames == {"unknownKeyword", "$comment", "$id", "xnot-ext", "-x-", "Definitions2"}
 Exts ==
   UNION {{Case("ext", <<>>, kf[1], kf[2], <<[name |-> n, vt |-> "any", cls |-> c]>>) : c \in Payloads, n \in {"x-ext"}}
           : kf \in {x \in KindFlavours : AdmitsExt(x[1], x[2])}}
-  \cup {Case("ext", <<>>, "schema", "", <<[name |-> "unknownKeyword", vt |-> "any", cls |-> c]>>) : c \in Payloads}
+  \cup UNION {{Case("ext", <<>>, kf[1], kf[2], <<[name |-> n, vt |-> "any", cls |-> "str"]>>) : n \in ExtNames \ {"x-ext"}}
+          : kf \in {x \in KindFlavours : AdmitsExt(x[1], x[2])}}
+  \cup {Case("ext", <<>>, "schema", "", <<[name |-> n, vt |-> "any", cls |-> c]>>) : c \in Payloads, n \in UnknownNames}
   \cup {Case("ext", <<>>, "schema", "", <<[name |-> "x-ext", vt |-> "any", cls |-> "str"],
                                             [name |-> "unknownKeyword", vt |-> "any", cls |-> "obj"]>>)}
 
@@ -166,7 +171,23 @@ SingleMembers(k, fl) ==
   \cup (IF AdmitsExt(k, fl) THEN {<<[name |-> "x-ext", vt |-> "any", cls |-> "obj"]>>} ELSE {})
 ValidCases == UNION {{Case("valid", st[1], st[2], st[3], ms) : ms \in SingleMembers(st[2], st[3])} : st \in Grown}
 
-Export == (IF "valid" \in Families THEN ValidCases ELSE {}) \cup
+\* ---- odd strings where a URL or a reference is expected (C07)
+OddStrings == {"hash", "hashslash", "dblhash", "badpct", "badhost", "noscheme", "space", "ctl", "tilde2", "onlyquery", "longfrag"}
+UrlLike(k, fl) == {kw \in Free(k, fl) : kw \in {"$ref", "$schema", "id", "url", "termsOfService", "authorizationUrl", "tokenUrl"}}
+OddCases ==
+  UNION {UNION {{Case("odd", <<>>, kf[1], kf[2], <<[name |-> kw, vt |-> "oddstr", cls |-> c]>>) : c \in OddStrings}
+                 : kw \in UrlLike(kf[1], kf[2])}
+          : kf \in KindFlavours}
+
+\* ---- extension names in upper case: the meta-schema pattern ^x- does not admit them (not normal
+\* form), the library reads them as extensions; checked for determinism / fixed point only
+ExtCaseCases ==
+  UNION {{Case("extcase", <<>>, kf[1], kf[2], <<[name |-> "X-Upper", vt |-> "any", cls |-> "str"]>>),
+          Case("extcase", <<>>, kf[1], kf[2], <<[name |-> "x-both", vt |-> "any", cls |-> "str"], [name |-> "X-Both", vt |-> "any", cls |-> "num"]>>)}
+          : kf \in {x \in KindFlavours : AdmitsExt(x[1], x[2])}}
+
+Export == (IF "odd" \in Families THEN OddCases \cup ExtCaseCases ELSE {}) \cup
+          (IF "valid" \in Families THEN ValidCases ELSE {}) \cup
           (IF "payload" \in Families THEN PayloadCases ELSE {}) \cup
           (IF "single" \in Families THEN Singles ELSE {})
           \cup (IF "pair" \in Families THEN Pairs ELSE {})
